@@ -214,6 +214,9 @@ namespace bloch::runtime {
         bool destroyed = false;
         RuntimeEvaluator* owner = nullptr;
         bool marked = false;
+        // Set when a user destructor stored a reference to the dying object somewhere that
+        // outlives it: the storage is then kept until the evaluator goes away.
+        bool retained = false;
     };
 
     // Interpreter that walks the AST and simulates quantum bits via
@@ -259,6 +262,8 @@ namespace bloch::runtime {
         // First error thrown by a user destructor that ran from an object's deleter, where it
         // cannot propagate; rethrown at the next statement boundary.
         std::exception_ptr m_pendingDestructorError;
+        // Objects whose destructor leaked 'this' (see Object::retained); freed at teardown.
+        std::vector<std::unique_ptr<Object>> m_retainedObjects;
         // Class runtime metadata and heap tracking
         std::unordered_map<std::string, std::shared_ptr<RuntimeClass>> m_classTable;
         std::vector<std::weak_ptr<Object>> m_heap;
